@@ -47,6 +47,7 @@ properties talk about is logged as the model's effect. `route` is the `-default_
 def cliEnv (route : Bool) : Gen.CliEnv CliWorld where
   Now := fun w => .ok (w.now, w)
   CtxErr := fun w => .ok (if w.cancelled then some "context canceled" else none, w)
+  SockClose := fun w => .ok (none, w)
   LimiterAllow := fun w => .ok (true, w)
   Sleep := fun _ w => .ok ((), w)
   TmplDiscover := fun _ w => .ok ((noSender, 0), w.emit (.send .discover none none))
@@ -152,6 +153,7 @@ def cliSockEnv (openErr : GoErr) : Gen.CliEnv (List Bytes) where
     | f :: r => .ok ((f, none), r)
   Now := fun fs => .ok (0, fs)
   CtxErr := fun fs => .ok (none, fs)
+  SockClose := fun fs => .ok (none, fs)
   LimiterAllow := fun fs => .ok (true, fs)
   Sleep := fun _ fs => .ok ((), fs)
   TmplDiscover := fun _ fs => .ok ((noSender, 0), fs)
